@@ -4,7 +4,7 @@
    A schedule is any list of atomic steps (Model/Ingest.v) that the model can execute from the
    initial state: all interleavings of n producers, the consumer and the expanding producer. *)
 From Coq Require Import List Arith Permutation ZArith.
-From SV Require Import Model.Ingest Spec.IngestSpec Proofs.IngestProofs Proofs.IngestOrder.
+From SV Require Import Model.Ingest Spec.IngestSpec Proofs.IngestProofs Proofs.IngestOrder Proofs.IngestRace.
 Import ListNotations.
 
 (* conservation: processed + queued (in any channel, old or new) + held by a producer inside Emit + dropped
@@ -68,6 +68,55 @@ Theorem C19_block_nonpositive_timeout_blocks : forall t, (t <= 0)%Z ->
             ig_step (ig_bto_cfg t) s (IgTo 0) = None /\ ig_step (ig_bto_cfg t) s (IgCs 0) = None.
 Proof. exact ig_block_nonpositive_timeout_blocks. Qed.
 Print Assumptions C19_block_nonpositive_timeout_blocks.
+
+(* Emit returns only after a successful send or a counted drop. One step of any schedule, any strategy, any
+   state (not only reachable ones): if producer p holds row x before the step and nothing after it, then the step
+   either put x into a channel and counted nothing, or incremented input_dropped_count by exactly one, for x. *)
+Theorem C19_emit_returns_only_sent_or_counted : forall c s a s' p pr pr' x,
+  ig_step c s a = Some s' ->
+  nth_error (ig_prods s) p = Some pr -> ig_hand pr = Some x ->
+  nth_error (ig_prods s') p = Some pr' -> ig_hand pr' = None ->
+  ((exists r, ig_push (ig_chans s) r x = Some (ig_chans s')) /\ ig_dropped s' = ig_dropped s /\
+   ig_dropped_ids s' = ig_dropped_ids s)
+  \/ (ig_chans s' = ig_chans s /\ ig_dropped s' = S (ig_dropped s) /\ ig_dropped_ids s' = ig_dropped_ids s ++ [x]).
+Proof. exact ig_return_accounted. Qed.
+Print Assumptions C19_emit_returns_only_sent_or_counted.
+
+(* the expand program on a failed send (channel full, no writer): at stages 0..3 (k = 1 is the send right after the
+   producer's own expandDataChannel, whose new slots other producers may have taken in between) the row stays in
+   hand, nothing is counted and the program goes on (CAS / next retry timer); only the failed send after the third
+   timer returns, and it counts the row *)
+Theorem C19_expand_failed_send_keeps_row : forall c s p pr x k,
+  ig_strat c = IgExpand ->
+  nth_error (ig_prods s) p = Some pr -> ig_pc pr = IgTry k -> ig_hand pr = Some x ->
+  ig_wlock s = None -> ig_push (ig_chans s) (ig_cur s) x = None ->
+  exists s' pr', ig_step c s (IgSd p) = Some s' /\ nth_error (ig_prods s') p = Some pr' /\
+    ig_chans s' = ig_chans s /\
+    (if k <? 4
+     then ig_hand pr' = Some x /\ ig_dropped s' = ig_dropped s /\
+          ig_pc pr' = (if k =? 0 then IgExpBegin else IgWait (k - 1))
+     else ig_hand pr' = None /\ ig_pc pr' = IgIdle /\ ig_dropped s' = S (ig_dropped s) /\
+          ig_dropped_ids s' = ig_dropped_ids s ++ [x]).
+Proof. exact ig_expand_failed_send. Qed.
+Print Assumptions C19_expand_failed_send_keeps_row.
+
+(* the race exists in the model (buffer 1, MinIncrement 1, two producers): after P0's expansion 1 -> 2 and P1's
+   Emit, P0 stands before its second send with its row and the channel is full again ... *)
+Theorem C19_expander_can_lose_the_new_slot :
+  exists s pr, ig_run ig_race_cfg (ig_init ig_race_cfg 2) (firstn 15 ig_race_schedule) = Some s /\
+               nth_error (ig_prods s) 0 = Some pr /\ ig_pc pr = IgTry 1 /\ ig_hand pr = Some (0, 2) /\
+               ig_len s = 2 /\ ig_cap s = 2 /\ ig_push (ig_chans s) (ig_cur s) (0, 2) = None.
+Proof. exact ig_race_lost. Qed.
+Print Assumptions C19_expander_can_lose_the_new_slot.
+
+(* ... and the schedule ends with that row counted: 3 rows processed + 1 dropped = 4 emitted *)
+Theorem C19_expander_losing_the_race_is_counted :
+  exists s, ig_run ig_race_cfg (ig_init ig_race_cfg 2) ig_race_schedule = Some s /\
+            ig_processed s = [(0, 0); (0, 1); (1, 0)] /\ ig_dropped s = 1 /\ ig_dropped_ids s = [(0, 2)] /\
+            ig_emitted s = 4 /\ ig_cap s = 2 /\ ig_queued s = [] /\ ig_inflight s = [] /\
+            Forall ig_no_mt ig_race_schedule.
+Proof. exact ig_race_run. Qed.
+Print Assumptions C19_expander_losing_the_race_is_counted.
 
 (* every channel ever created, in particular the current one, respects the ceiling *)
 Theorem C19_cap_bounded : forall c n l s,
